@@ -506,7 +506,7 @@ impl WhenCalledBuilder<'_> {
     /// ```
     pub fn will_return_boolean(self, value: bool) {
         // Ensure the target function returns a bool
-        if !self.expected_signature.trim().ends_with("-> bool") {
+        if !returns_bool(self.expected_signature) {
             panic!(
                 "Signature mismatch: will_return_boolean requires a function returning bool but got {}",
                 self.expected_signature
@@ -516,6 +516,29 @@ impl WhenCalledBuilder<'_> {
         let guard = self.when.will_return_boolean_guard(value);
         self.lib.guards.push(guard);
     }
+}
+
+/// Returns true when `signature` (the `type_name` of a function pointer) has `bool` as its
+/// top-level return type, i.e. the text after the parenthesis that closes the parameter list is
+/// `-> bool`. (`fn() -> fn() -> bool` merely ends in that text: it returns a function pointer.)
+fn returns_bool(signature: &str) -> bool {
+    let Some(open) = signature.find('(') else {
+        return false;
+    };
+    let mut depth = 0usize;
+    for (i, c) in signature[open..].char_indices() {
+        match c {
+            '(' => depth += 1,
+            ')' => {
+                depth -= 1;
+                if depth == 0 {
+                    return signature[open + i + 1..].trim() == "-> bool";
+                }
+            }
+            _ => {}
+        }
+    }
+    false
 }
 
 pub struct WhenCalledBuilderAsync<'a> {
